@@ -509,7 +509,7 @@ pub fn main() {
     }
     let nmax = if args.thorough() { 12 } else { 8 };
     let exh = exhaustive(nmax);
-    let random_cases = args.scale(100_000, 10) as u32;
+    let random_cases = args.scale(300_000, 5) as u32;
     let acc = engine::parallel(&args, PROP, |w, workers, acc| {
         for (i, c) in exh.iter().enumerate() {
             if i % workers == w {
